@@ -18,7 +18,7 @@ RULE = ('fault enumeration: for each base file (spec-serialized random '
         'content header; distinct = (file fingerprint, cut) by construction.')
 FLOOR = {'quick': 50000, 'thorough': 1000000}
 REQUIRED_REACH = ['DiffXReader._read_content']
-REQUIRED_COUNTERS = ['cut:in_header', 'cut:in_content', 'cut:at_boundary',
+REQUIRED_COUNTERS = ['exact_byte_count_checked', 'cut:in_header', 'cut:in_content', 'cut:at_boundary',
                      'cut:content_after_newline', 'length_perturbations']
 ASSUMPTIONS = [
     'intact records are those of the spec serializer layout; a base file is '
@@ -28,7 +28,7 @@ ASSUMPTIONS = [
     'intact" is demanded there',
 ]
 
-BAD_LENGTHS = [b'-1', b'-0', b'-7', b'abc', b'1.5', b'1e3', b'0x10',
+BAD_LENGTHS = [b'-1', b'-0', b'0', b'-7', b'abc', b'1.5', b'1e3', b'0x10',
                b'9' * 30, b'9' * 5000, b'1_0', b'007', b'/']
 
 
@@ -56,6 +56,41 @@ def classify_cut(layout, c, total):
     nl = sec['nl']
     raw_before = c - sec['coff']
     return ('content_after_newline', 'in_content', sec, raw_before)
+
+
+def framing_fails(data, positions):
+    """Independent framing walk: a yielded content section must have
+    consumed exactly its declared number of bytes. ``positions`` are the
+    stream positions observed right after each yield."""
+    from mon.oracle import scanner
+    secs, problems = scanner.scan(data)
+    out = []
+    for i, pos in enumerate(positions):
+        if i >= len(secs):
+            break
+        s = secs[i]
+        if 'coff' in s and isinstance(s['options'].get('length'), int) \
+                and s['options']['length'] >= 0:
+            declared_end = s['coff'] + s['options']['length']
+            if pos != min(declared_end, len(data)):
+                out.append((i, s['id'], pos, declared_end))
+                break
+    return out
+
+
+def run_reader_positions(data):
+    """Like read_records, but also the stream position after each yield."""
+    from pydiffx.reader import DiffXReader
+    from mon.monitor.streams import MonitoredStream
+    stream = MonitoredStream(data)
+    recs, pos, exc = [], [], None
+    try:
+        for r in DiffXReader(stream):
+            recs.append(common.project(r))
+            pos.append(stream.tell())
+    except Exception as e:
+        exc = e
+    return recs, pos, exc
 
 
 def run_reader(data, coffs=None):
@@ -166,7 +201,7 @@ def check_file(data, layout, obs, tag, rng=None, cut_stride=1):
             obs.count('length_perturbations')
             obs.count('length:%s' % vkind)
             strong = vkind == 'bad' or (vkind == 'plus' and is_last)
-            if val in (b'-0', b'007', b'1_0'):
+            if val in (b'-0', b'0', b'007', b'1_0'):
                 strong = False      # these denote (or may denote) integers
             case = {'file': data, 'section_index': idx, 'length': val,
                     'label': 'length_%s' % vkind, 'strong': strong}
@@ -177,6 +212,18 @@ def check_file(data, layout, obs, tag, rng=None, cut_stride=1):
             else:
                 judge(recs[:idx], exc, short, neg, intact, case, obs,
                       'length_%s' % vkind)
+                # a merely wrong length cannot be detected, but the reader
+                # must still take exactly the declared number of bytes
+                if val not in (b'1_0',):
+                    r2, positions, e2 = run_reader_positions(mutated)
+                    obs.count('exact_byte_count_checked')
+                    ff = framing_fails(mutated, positions)
+                    if ff:
+                        obs.violation(
+                            '%s:section_did_not_consume_declared_bytes'
+                            % ('length_%s' % vkind), case,
+                            {'section': ff[0][1], 'position': ff[0][2],
+                             'declared_end': ff[0][3]})
 
 
 def common_fid(data):
@@ -205,7 +252,7 @@ def gen_file(rng, small=True):
 def run(ctx):
     obs = ctx.obs
     rng = ctx.rng
-    nfiles = ctx.share(ctx.pick(112, 5000))
+    nfiles = ctx.share(ctx.pick(96, 5000))
     done = 0
     tries = 0
     while done < nfiles and tries < nfiles * 20:
